@@ -859,6 +859,19 @@ func (env *SpecEnv) call(e *Expr) (SV, error) {
 			}
 		}
 		return SV{}, fmt.Errorf("dom() on non-map")
+	case "content":
+		// content(m): the whole contents (key set and values) of the map object m denotes, as one value: lets a frame
+		// condition say "this map object was not written to" without a quantifier over its keys
+		m, err := argv(0)
+		if err != nil {
+			return SV{}, err
+		}
+		if m.typ != nil {
+			if mt, ok := m.typ.Underlying().(*types.Map); ok {
+				return SV{t: env.f.mapObj(env.st, m.t, mt)}, nil
+			}
+		}
+		return SV{}, fmt.Errorf("content() on non-map")
 	case "contains":
 		if err := need(2); err != nil {
 			return SV{}, err
